@@ -203,7 +203,19 @@ def _effects(trace, before, after, res, allowed, V, phase):
                 elif rel not in allowed["out"]:
                     V("unexpected-path", phase, path=rel, via="open-for-write")
         else:
-            V("destructive-op", phase, event=ev[0], args=list(ev[1]))
+            # rename / remove / rmdir / chmod / ...: a violation when it touches something that existed before the
+            # run and is not one of the allowed outputs, or anything outside the sandbox. (Creating a temporary file
+            # and renaming it over the output, or removing one's own temporary file, leaves nothing else behind and
+            # is judged by the before/after snapshot like everything else.)
+            for a in ev[1]:
+                if not isinstance(a, str) or a.startswith("<fd") or not (a.startswith("<SBX>") or a.startswith("/")):
+                    continue
+                if not a.startswith("<SBX>"):
+                    V("write-outside-sandbox", phase, event=ev[0], path=a)
+                    continue
+                rel = a[6:] if a.startswith("<SBX>/") else ""
+                if rel in before and rel not in allowed["out"] and before[rel][0] != "d":
+                    V("destructive-op", phase, event=ev[0], path=rel)
     for ev in res["io"]:
         if ev[0] == "open" and ev[1] in allowed["inputs"] and any(c in ev[2] for c in "wax+"):
             V("input-opened-writable", phase, path=ev[1], mode=ev[2])
